@@ -118,6 +118,17 @@ func randTemplate(r *rng) *x509.Certificate {
 		base = time.Date(2051+r.intn(20), 3, 4, 5, 6, 7, 0, time.UTC) // GeneralizedTime range
 	}
 	t.NotBefore, t.NotAfter = base, base.Add(time.Duration(1+r.intn(100000))*time.Hour)
+	// DER times carry whole seconds: a fraction in the template is dropped (truncated, never rounded up: a
+	// certificate must not become valid later or stay valid longer than asked), whatever the time zone
+	if r.chance(1, 3) {
+		fr := []time.Duration{1, 499999999, 500000000, 600 * time.Millisecond, 999999999}
+		t.NotBefore = t.NotBefore.Add(fr[r.intn(len(fr))])
+		t.NotAfter = t.NotAfter.Add(fr[r.intn(len(fr))])
+		if r.chance(1, 2) {
+			zone := time.FixedZone("x", (r.intn(25)-12)*3600+r.intn(2)*1800)
+			t.NotBefore, t.NotAfter = t.NotBefore.In(zone), t.NotAfter.In(zone)
+		}
+	}
 	t.KeyUsage = x509.KeyUsage(r.intn(512))
 	for i := 0; i < r.intn(3); i++ {
 		t.ExtKeyUsage = append(t.ExtKeyUsage, x509.ExtKeyUsage(r.intn(12)))
@@ -190,7 +201,7 @@ func compareCert(t, c *x509.Certificate) string {
 	switch {
 	case t.SerialNumber.Cmp(c.SerialNumber) != 0:
 		return "serial"
-	case !t.NotBefore.Equal(c.NotBefore) || !t.NotAfter.Equal(c.NotAfter):
+	case !t.NotBefore.Truncate(time.Second).Equal(c.NotBefore) || !t.NotAfter.Truncate(time.Second).Equal(c.NotAfter):
 		return "validity"
 	case t.KeyUsage != c.KeyUsage:
 		return "keyusage"
